@@ -209,7 +209,7 @@ def load_known(prop_id):
 SRC_TIE = {
     'C01': ['Codec'], 'C02': ['Codec'], 'C03': ['Codec'],
     'C04': ['Tok'], 'C05': ['Tok'], 'C06': ['Tok'], 'C18': ['Tok'], 'C19': ['Tok'],
-    'C07': ['Vlq', 'Tracks', 'Writer'], 'C08': ['Vlq', 'Writer'], 'C09': ['Meta', 'Vlq'],
+    'C07': ['Vlq', 'Tracks', 'Writer', 'Reader'], 'C08': ['Vlq', 'Writer', 'Reader'], 'C09': ['Meta', 'Vlq'],
     'C12': ['Tracks'], 'C16': ['Tracks'],
 }
 SRC_TIE_FILES = {
@@ -219,6 +219,7 @@ SRC_TIE_FILES = {
     'Vlq': ['mido/midifiles/meta.py', 'mido/midifiles/midifiles.py'],
     'Tracks': ['mido/midifiles/tracks.py'],
     'Writer': ['mido/midifiles/midifiles.py', 'mido/midifiles/tracks.py', 'mido/midifiles/meta.py'],
+    'Reader': ['mido/midifiles/midifiles.py'],
 }
 
 
@@ -365,6 +366,26 @@ class Check:
             except struct.error:
                 w = 'err StructError'
             reqs.append('pyop pack16 %d %d %d' % t3); want.append(w)
+        import io
+        import struct as _st
+        for hdr in ([77, 84, 114, 107, 0, 0, 1, 2], [1, 2, 3, 4, 255, 255, 255, 255], [0] * 8, [1, 2, 3], [9] * 9):
+            try:
+                nm, sz = _st.unpack('>4sL', bytes(hdr))
+                w = 'ok %s | %d' % (' '.join(map(str, nm)), sz)
+            except _st.error:
+                w = 'err StructError'
+            reqs.append('pyop unpack4sL ' + ' '.join(map(str, hdr))); want.append(w)
+        for d in ([0, 1, 0, 2, 1, 224], [255, 255, 128, 0, 127, 255], [0, 0, 0], [1] * 7):
+            try:
+                w = 'ok %d %d %d' % _st.unpack('>hhh', bytes(d))
+            except _st.error:
+                w = 'err StructError'
+            reqs.append('pyop unpackHHH ' + ' '.join(map(str, d))); want.append(w)
+        for data, n in (([1, 2, 3, 4, 5], 2), ([1, 2, 3], 5), ([], 1), ([7, 8], 0), ([7, 8], -1)):
+            f = io.BytesIO(bytes(data))
+            got_b = f.read(n) if n >= 0 else b''
+            reqs.append('pyop readUpTo %d %s' % (n, ' '.join(map(str, data))))
+            want.append('%s | %d' % (' '.join(map(str, got_b)), f.tell()) if n >= 0 else ' | 0')
         for xs in ([], [5], [5, 6, 7]):
             for i in (-4, -3, -1, 0, 1, 2, 3):
                 reqs.append('pyop idx %d %s' % (i, ' '.join(map(str, xs)))); want.append(py(lambda: xs[i]))
